@@ -290,3 +290,60 @@ def rule_signext_symmetry(ctx):
             ctx.violated("SIGNSYM", key, f.where(), "the two sign-extension arms differ in shape (%s  vs  %s): negative and non-negative values are extended over different bytes/bits"
                          % (d[0][:70], d[1][:70]))
     return len(found)
+
+
+def rule_import_compression(ctx):
+    """CRDRV (C15, C09): GRIget_image_list builds the in-memory image records from three storage conventions — the GR Vgroup,
+    the RIG raster group and ungrouped RI8/CI8/II8 elements.  In each of them the image data may be compressed (DFTAG_CI,
+    DFTAG_CI8, DFTAG_II8); a record whose `use_cr_drvr` is never set is read as raw bytes.  Every arm of the import switch that
+    stores `img_tag` for a new image therefore also contains a store `use_cr_drvr = 1` (conditional on the tag found)."""
+    from .codec import ast_walk, ast_exprs
+    from .facts import mem_field, is_int
+    prog = ctx.prog
+    f = prog.func("GRIget_image_list")
+    if f is None:
+        ctx.unrecognised("CRDRV", "CRDRV:GRIget_image_list", "-", "GRIget_image_list not found")
+        return 0
+    arms = []
+
+    def vis(nn, st):
+        if nn[0] == "case":
+            sw = [a for a in st if a[0] == "switch"]
+            if sw and "grp_tag" in render(sw[-1][1]) and not any(a[0] == "case" for a in st[st.index(sw[-1]):]):
+                arms.append(nn)
+        return True
+    ast_walk(f.raw.get("ast"), vis)
+    n = 0
+    for arm in arms:
+        stores_tag = stores_drv = False
+        sub = []
+
+        def v2(m, st):
+            sub.append(m)
+            return True
+        ast_walk(arm[2], v2, [])
+        # consecutive `case A: case B: stmt` labels nest; statements that follow the labelled one are siblings in the
+        # enclosing block, so look at the whole remainder of the switch body up to the next top-level case
+        for m in sub:
+            if m[0] == "s":
+                for x in walk(m[1], True):
+                    if x[0] == "asg" and x[1] == "=":
+                        mf = mem_field(x[2])
+                        if mf and mf[1] == "img_tag" and mf[0] == "ri_info":
+                            stores_tag = True
+                        if mf and mf[1] == "use_cr_drvr" and not is_int(x[3], 0):
+                            stores_drv = True
+        if not stores_tag:
+            continue
+        n += 1
+        lab = arm[1]
+        lab = (lab.get("name") or str(lab.get("case"))) if isinstance(lab, dict) else render(lab)[:24]
+        key = "CRDRV:GRIget_image_list:%s" % lab
+        line = arm[3] if len(arm) > 3 else f.line
+        if stores_drv:
+            ctx.holds("CRDRV", key, f.where(line), "the arm can select the compressed-raster driver for the image it imports", nontrivial=True)
+        else:
+            ctx.violated("CRDRV", key, f.where(line), "this arm of the import switch creates image records (stores img_tag) but never sets use_cr_drvr: a compressed image of this "
+                         "storage convention is handed to the application as its compressed bytes")
+    ctx.floor("CRDRV", 3, n, "(arms of the import switch that create image records)")
+    return n
